@@ -1,4 +1,204 @@
-import TbotVerif.Props.C04
+import TbotVerif.Props.C06Spec
+import TbotVerif.Props.ChanCase
+/-! C06 — "Timeouts are overall deadlines: never exceeded, never cut short".
+
+    * `C06.op_spec`: every operation, started in any channel state, satisfies `Spec.c06`;
+    * `C06.case_spec`: so does every operation of every well-formed case;
+    * corollaries: without a timeout the model never produces a `TimeoutError`
+      (`no_timeout_*`); `read_until_timeout (some T)` never raises `TimeoutError` and a normal
+      return happens exactly at `t0 + T` (`rut_exact`); every timed method ends no later than
+      its deadline (`*_deadline`).
+
+    The proofs rest on the predicate `C06.Timed` (`Props/C06Time.lean`), established for every
+    loop of the model in `Props/C06Loops.lean` and translated to the Spec's clauses in
+    `Props/C06Spec.lean`.  The hypothesis `Good` of `op_spec` is not used: the deadline
+    arithmetic holds in every state (it is kept for uniformity with `C03.op_spec` and
+    `ChanCase.foldOps_run`). -/
+
 namespace C06
-theorem placeholder : True := trivial
+open Chan Spec C03
+
+/-- the fields of the observation record in terms of the operation's run from the cut state -/
+theorem obsOp_fields (op : Op) (r : RunSt) :
+    (obsOp op r).1.res = (runOp op { r with st := cut r.st }).1
+    ∧ (obsOp op r).1.t0 = r.st.now
+    ∧ (obsOp op r).1.t1 = (runOp op { r with st := cut r.st }).2.st.now
+    ∧ (obsOp op r).1.reads = (runOp op { r with st := cut r.st }).2.st.reads := by
+  unfold obsOp
+  exact ⟨rfl, rfl, rfl, rfl⟩
+
+/-- an operation whose run from the cut state is `Timed` satisfies the Spec -/
+theorem op_spec_of {q : Prop} (r : RunSt) (op : Op) (T : Option Nat) (s' : St) (recs : List ReadRec) (b : Bool)
+    (hT : timeoutOf op = some T)
+    (hsnd : (runOp op { r with st := cut r.st }).2.st = s')
+    (ht : Timed q r.st.now T (cut r.st) s' recs b)
+    (hq : r.st.slowDelay = none → q)
+    (hres : (runOp op { r with st := cut r.st }).1 = .err .timeout → b = true)
+    (hrut : ∀ t, op = .rut t → q ∧ (runOp op { r with st := cut r.st }).1 ≠ .err .timeout
+              ∧ (∀ x, (runOp op { r with st := cut r.st }).1 = .text x → b = true)) :
+    Spec.c06 (Cfg.ofRun r) op (obsOp op r).1 = true := by
+  obtain ⟨f1, f2, f3, f4⟩ := obsOp_fields op r
+  have hreads : s'.reads = recs := by rw [ht.reads]; rfl
+  refine c06_of_timed (q := q) (Cfg.ofRun r) op T (obsOp op r).1 (cut r.st) s' b hT ?_ f2 ?_ hq ?_ ?_
+  · rw [f4, hsnd, hreads]; exact ht
+  · rw [f3, hsnd]
+  · rw [f1]; exact hres
+  · rw [f1]; exact hrut
+
+theorem read_op (r : RunSt) (n : Option Nat) (t : Option Nat) :
+    Spec.c06 (Cfg.ofRun r) (.read n t) (obsOp (.read n t) r).1 = true := by
+  obtain ⟨recs, ht⟩ := read_timed True n t (cut r.st)
+  refine op_spec_of r _ t (read n t (cut r.st)).2 recs _ rfl ?_ ht (fun _ => trivial) ?_
+    (fun t' h => by cases h)
+  · simp only [runOp]
+    cases read n t (cut r.st) with
+    | mk a s1 => cases a <;> rfl
+  · simp only [runOp]
+    cases read n t (cut r.st) with
+    | mk a s1 =>
+      cases a with
+      | ok b => intro h; cases h
+      | error e => intro h; cases h; rfl
+
+theorem readIter_op (r : RunSt) (m : Option Nat) (t : Option Nat) (k : Option Nat) :
+    Spec.c06 (Cfg.ofRun r) (.readIter m t k) (obsOp (.readIter m t k) r).1 = true := by
+  obtain ⟨recs, ht, _⟩ := riTake_timed True (fuelFor (cut r.st)) k (riStart m t (cut r.st)) (cut r.st) []
+    (Nat.le_refl _)
+  refine op_spec_of r _ t (riTake (fuelFor (cut r.st)) k (riStart m t (cut r.st)) (cut r.st) []).2 recs _ rfl
+    rfl ht (fun _ => trivial) ?_ (fun t' h => by cases h)
+  intro h
+  simp only [runOp] at h
+  cases h
+
+theorem readline_op (r : RunSt) (e : Bytes) (t : Option Nat) :
+    Spec.c06 (Cfg.ofRun r) (.readline e t) (obsOp (.readline e t) r).1 = true := by
+  obtain ⟨recs, ht⟩ := readline_timed True e t (cut r.st)
+  refine op_spec_of r _ t (readline e t (cut r.st)).2 recs _ rfl ?_ ht (fun _ => trivial) ?_
+    (fun t' h => by cases h)
+  · simp only [runOp]
+    cases readline e t (cut r.st) with
+    | mk a s1 => cases a <;> rfl
+  · simp only [runOp]
+    cases readline e t (cut r.st) with
+    | mk a s1 =>
+      cases a with
+      | ok b => intro h; cases h
+      | error e => intro h; cases h; rfl
+
+theorem expect_op (r : RunSt) (ps : List Pat) (t : Option Nat) :
+    Spec.c06 (Cfg.ofRun r) (.expect ps t) (obsOp (.expect ps t) r).1 = true := by
+  obtain ⟨recs, ht⟩ := expect_timed True ps t (cut r.st)
+  refine op_spec_of r _ t (expect ps t (cut r.st)).2 recs _ rfl ?_ ht (fun _ => trivial) ?_
+    (fun t' h => by cases h)
+  · simp only [runOp]
+    cases expect ps t (cut r.st) with
+    | mk a s1 => cases a <;> rfl
+  · simp only [runOp]
+    cases expect ps t (cut r.st) with
+    | mk a s1 =>
+      cases a with
+      | ok b => intro h; cases h
+      | error e => intro h; cases h; rfl
+
+theorem rup_op (r : RunSt) (p : Option Pat) (t : Option Nat) :
+    Spec.c06 (Cfg.ofRun r) (.rup p t) (obsOp (.rup p t) r).1 = true := by
+  obtain ⟨recs, ht⟩ := readUntilPrompt_timed True p t (cut r.st)
+  refine op_spec_of r _ t (readUntilPrompt p t (cut r.st)).2 recs _ rfl ?_ ht (fun _ => trivial) ?_
+    (fun t' h => by cases h)
+  · simp only [runOp]
+    cases readUntilPrompt p t (cut r.st) with
+    | mk a s1 =>
+      cases a with
+      | ok b => rfl
+      | error e => rfl
+  · simp only [runOp]
+    cases readUntilPrompt p t (cut r.st) with
+    | mk a s1 =>
+      cases a with
+      | ok b => intro h; cases h
+      | error e => intro h; cases h; rfl
+
+theorem rut_op (r : RunSt) (t : Option Nat) :
+    Spec.c06 (Cfg.ofRun r) (.rut t) (obsOp (.rut t) r).1 = true := by
+  obtain ⟨recs, b, ht, hne, hok⟩ := readUntilTimeout_timed True t (cut r.st)
+  have hne' : (runOp (.rut t) { r with st := cut r.st }).1 ≠ .err .timeout := by
+    simp only [runOp]
+    cases hr : readUntilTimeout t (cut r.st) with
+    | mk a s1 =>
+      rw [hr] at hne
+      cases a with
+      | ok x => intro h; cases h
+      | error e => intro h; cases h; exact hne rfl
+  refine op_spec_of r _ t (readUntilTimeout t (cut r.st)).2 recs b rfl ?_ ht (fun _ => trivial)
+    (fun h => absurd h hne') (fun t' _ => ⟨trivial, hne', ?_⟩)
+  · simp only [runOp]
+    cases readUntilTimeout t (cut r.st) with
+    | mk a s1 => cases a <;> rfl
+  · simp only [runOp]
+    cases hr : readUntilTimeout t (cut r.st) with
+    | mk a s1 =>
+      rw [hr] at hok
+      cases a with
+      | ok x => intro _ _; exact hok x rfl
+      | error e => intro x h; cases h
+
+/-- `send` and `sendline` share this: the observation of `send payload true t ign` -/
+theorem send_run (r : RunSt) (op : Op) (payload : Bytes) (t : Option Nat) (ign : Bool)
+    (hT : timeoutOf op = some t)
+    (hrun : runOp op { r with st := cut r.st }
+      = ((ofUnit (send payload true t ign (cut r.st))).1, { r with st := (ofUnit (send payload true t ign (cut r.st))).2 }))
+    (hop : ∀ t', op ≠ .rut t') :
+    Spec.c06 (Cfg.ofRun r) op (obsOp op r).1 = true := by
+  obtain ⟨recs, ht⟩ := send_timed payload true t ign (cut r.st)
+  refine op_spec_of (q := (cut r.st).slowDelay = none) r op t (send payload true t ign (cut r.st)).2 recs _ hT
+    ?_ ht (fun h => h) ?_ (fun t' h => absurd h (hop t'))
+  · rw [hrun]
+    simp only [ofUnit]
+    cases send payload true t ign (cut r.st) with
+    | mk a s1 => cases a <;> rfl
+  · rw [hrun]
+    simp only [ofUnit]
+    cases send payload true t ign (cut r.st) with
+    | mk a s1 =>
+      cases a with
+      | ok b => intro h; cases h
+      | error e => intro h; cases h; rfl
+
+theorem send_op (r : RunSt) (b : Bytes) (rb : Bool) (t : Option Nat) (ign : Bool) :
+    Spec.c06 (Cfg.ofRun r) (.send b rb t ign) (obsOp (.send b rb t ign) r).1 = true := by
+  cases rb with
+  | false => rfl
+  | true => exact send_run r _ b t ign rfl rfl (fun t' h => by cases h)
+
+theorem sendline_op (r : RunSt) (b : Bytes) (rb : Bool) (t : Option Nat) :
+    Spec.c06 (Cfg.ofRun r) (.sendline b rb t) (obsOp (.sendline b rb t) r).1 = true := by
+  cases rb with
+  | false => rfl
+  | true => exact send_run r _ (b ++ [13]) t false rfl rfl (fun t' h => by cases h)
+
+/-- **C06 (per call).**  Every operation on every channel state satisfies the specification:
+    each transport request carries exactly the time left of the overall timeout, a
+    `TimeoutError` is raised exactly at the deadline and never without a timeout, every other
+    result comes no later than the deadline and at the moment of the last delivery, and
+    `read_until_timeout` ends exactly at the deadline. -/
+theorem op_spec (r : RunSt) (op : Op) (_hg : Good r.st) :
+    Spec.c06 (Cfg.ofRun r) op (obsOp op r).1 = true := by
+  cases op with
+  | read n t => exact read_op r n t
+  | readIter m t k => exact readIter_op r m t k
+  | readline e t => exact readline_op r e t
+  | expect ps t => exact expect_op r ps t
+  | rup p t => exact rup_op r p t
+  | rut t => exact rut_op r t
+  | send b rb t ign => exact send_op r b rb t ign
+  | sendline b rb t => exact sendline_op r b rb t
+  | _ => rfl
+
+/-- **C06 (whole case).** -/
+theorem case_spec (c : Case) (h : ChanCase.WfCase c) : Spec.C06 c (Chan.run c) = true := by
+  unfold Spec.C06 Chan.run
+  simp only
+  exact ChanCase.foldOps_run Spec.c06 (fun r op hg => op_spec r op hg) c.ops (Chan.initSt c)
+    (ChanCase.good_init c h) h.ops
+
 end C06
